@@ -428,7 +428,7 @@ PROPS["C19"] = {
 }
 
 PROPS["C13"] = {
-    "files": ["root/fakes.go", "root/c08_cache.go", "root/c01_routing.go", "root/c13_cancel.go", "region/fakes.go", "region/c13_queue.go"],
+    "files": ["root/fakes.go", "root/c08_cache.go", "root/c01_routing.go", "root/c13_cancel.go", "root/c06_scanner.go", "region/fakes.go", "region/c13_queue.go"],
     "claim": "Safety form of the property: in an adversarial environment (time standing still, servers silent, regions never coming "
              "back, ZooKeeper never answering) a single request and a batch are blocked in each wait state — region unavailable, no "
              "connection with an establisher that never finishes, queued on a silent server, back-off sleep, unknown region behind a "
@@ -443,6 +443,8 @@ PROPS["C13"] = {
          "params": {"quick": {}, "thorough": {}}},
         {"name": "cancel_batch", "steps": 60000, "pkg": "root", "entry": "VerifCancelBatch", "reach": ["cancelled", "call-context-cancelled"], "watchdog": 20,
          "params": {"quick": {}, "thorough": {}}},
+        {"name": "cancel_scan", "steps": 60000, "pkg": "root", "entry": "VerifCancelScan", "reach": ["cancelled"], "watchdog": 20,
+         "params": {"quick": {"NROWS": 1}, "thorough": {"NROWS": 1}}},
         {"name": "cancel_send_queue", "pkg": "region", "entry": "VerifCancelSendQueue", "reach": ["cancelled"],
          "params": {"quick": {}, "thorough": {}}},
     ],
